@@ -194,8 +194,12 @@ func (r *Run) ForEach(ids []string, par int, f func(id string)) {
 			}
 		}()
 	}
+	seen := map[string]bool{}
 	for _, id := range ids {
-		if r.Want(id) {
+		// a case id names one unit of work (and usually its scratch files): the same id twice would run two units on
+		// the same files at the same time
+		if r.Want(id) && !seen[id] {
+			seen[id] = true
 			ch <- id
 		}
 	}
